@@ -1,12 +1,72 @@
 import Driver.Util
-open Drv
+import Faithful.Lib.CarInfo
+open Drv CI Car IndexAll
 
 namespace DrvC01
 
-/-- model side of the C01 line protocol: one answer line per op line -/
+structure St where
+  car : Array UInt8 := #[]
+  ix : Option IndexSet := none
+
+def step (st : St) (l : String) : St × String :=
+  match words l with
+  | "case" :: _ => (st, "ok")
+  | ["car", h] =>
+    let bytes := unhex h
+    match Car.parse bytes with
+    | none => ({ st with ix := none }, "car parse-error")
+    | some (hdr, sl) =>
+      let secs := sl.map (·.1)
+      let infos := secs.map fun s => CarInfo.info s.data
+      let nb := (infos.filter fun i => match i with | .block .. => true | _ => false).length
+      let nt := (infos.filter fun i => match i with | .tx .. => true | _ => false).length
+      -- the scan of the abstract sections must reproduce the locations seen while parsing
+      let locsOk := (scan hdr secs) == sl.map (·.2)
+      match IndexAll.build HF.real CarInfo.info hdr secs secs.length nb nt with
+      | .error e => ({ st with ix := none }, s!"car hdr={hdr} objs={secs.length} blocks={nb} txs={nt} build=err {repr e}")
+      | .ok ix => ({ car := bytes.toArray, ix := some ix },
+          s!"car hdr={hdr} objs={secs.length} blocks={nb} txs={nt} build=ok" ++ (if locsOk then "" else " SCAN-DISAGREES"))
+  | ["obj", c] =>
+    match st.ix with
+    | none => (st, "noindex")
+    | some ix =>
+      let cid := unhex c
+      match lookupA HF.real ix.cidIx cid with
+      | .found v =>
+        let (off, sz) := oasDecode v
+        match nodeAtA st.car off sz cid with
+        | some d => (st, s!"{off} {sz} {d.length} {hexNat (H.xxhash64 d).toNat 16}")
+        | none => (st, "get-err")
+      | .notFound => (st, "notfound")
+      | _ => (st, "err")
+  | ["slot", n] =>
+    match st.ix with
+    | none => (st, "noindex")
+    | some ix =>
+      let slot := n.toNat!
+      match findCidFromSlot HF.real ix slot with
+      | .found c =>
+        let bt := match getBlocktime ix slot with | some t => toString t | none => "err"
+        (st, s!"{hex c} bt={bt}")
+      | .notFound => (st, "notfound")
+      | _ => (st, "err")
+  | ["sig", g] =>
+    match st.ix with
+    | none => (st, "noindex")
+    | some ix =>
+      let sig := unhex g
+      match findCidFromSig HF.real ix sig with
+      | .found c => (st, s!"{hex c} exists={ix.sigs.contains sig}")
+      | .notFound => (st, "notfound")
+      | _ => (st, "err")
+  | _ => (st, "bad-op")
+
 def run (lines : Array String) : IO Unit := do
   let out ← IO.getStdout
-  for _ in lines do
-    out.putStrLn "unimplemented"
+  let mut st : St := {}
+  for l in lines do
+    let (st', o) := step st l
+    st := st'
+    out.putStrLn o
 
 end DrvC01
